@@ -25,3 +25,35 @@ Theorem C01_reset_then_next_refuted : exists c script start,
   let s := train c script start in l_stored s <> transitions_of (l_log s).
 Proof. exact loop_obs_reset_then_next_refuted. Qed.
 Print Assumptions C01_reset_then_next_refuted.
+
+(* ------------------------------------------------------------------ *)
+(** On-policy collectors on vector environments (ppo.collect_trajectories, a2c.collect_trajectories) *)
+From RLV Require Import Model.Collect Proofs.CollectProofs.
+
+(** PPO rollout under SAME_STEP autoreset, for every number of steps and every list of episode scripts:
+    each row starts from the observation its environment returned last (the reset observation after an
+    episode end, never the previous episode's final observation) and bootstraps from the successor
+    inside the same episode *)
+Theorem C01_ppo_rows_chain : forall T scripts,
+  let '(rows, _, _) := ppo_run ByIndex CarryNext T scripts in
+  rows_ok (map (fun _ => (0, 0)) scripts) rows /\ length rows = T.
+Proof. exact ppo_run_chain. Qed.
+Print Assumptions C01_ppo_rows_chain.
+
+(** the three neighbouring variants violate it: bootstrap from the autoreset observation, final observation
+    written at the position in the filtered list (the defect repaired by 76092e8), patched vector carried over *)
+Theorem C01_ppo_no_patch_refuted : exists T scripts, let '(rows, _, _) := ppo_run NoPatch CarryNext T scripts in all_boot_ok rows = false.
+Proof. exact no_patch_refuted. Qed.
+Theorem C01_ppo_filtered_position_refuted : exists T scripts, let '(rows, _, _) := ppo_run ByFilteredPosition CarryNext T scripts in all_boot_ok rows = false.
+Proof. exact filtered_position_refuted. Qed.
+Theorem C01_ppo_carry_patched_refuted : exists T scripts, let '(rows, _, _) := ppo_run ByIndex CarryPatched T scripts in starts_chain rows = false.
+Proof. exact carry_patched_refuted. Qed.
+Print Assumptions C01_ppo_carry_patched_refuted.
+
+(** A2C rollout under NEXT_STEP autoreset: rows chain from the observation returned last; the step after an
+    episode end is the wrapper's reset step (reward 0, no flags) leading to the new episode's reset observation *)
+Theorem C01_a2c_rows_chain : forall T scripts,
+  let '(rows, _, _) := a2c_run T scripts in
+  a_rows_ok (map (fun _ => (0, 0)) scripts) (map (fun _ => false) scripts) rows /\ length rows = T.
+Proof. exact a2c_run_chain. Qed.
+Print Assumptions C01_a2c_rows_chain.
